@@ -949,7 +949,10 @@ impl DepWorld {
         let from_handoff = handoff.is_some();
         let started = if from_handoff { usize::MAX } else { self.clock.fetch_add(1, SeqCst) };
         let claim = handoff.take().or_else(|| self.dep.next());
-        let Some(t) = claim else { return false };
+        let Some(t) = claim else {
+            crate::oplog(format!("{:?} next() -> None; cursor {}", thread::current().id(), self.dep.index()));
+            return false;
+        };
         crate::oplog(format!("{:?} claims tx {t}{}", thread::current().id(), if from_handoff { " (handoff)" } else { "" }));
         let mut tx = self.txs[t].lock().unwrap();
         match tx.status {
@@ -977,6 +980,7 @@ impl DepWorld {
             Ws::Executed => {
                 drop(tx);
                 self.dep.remove(t, false);
+                crate::oplog(format!("{:?} remove({t}, false) done; cursor {}", thread::current().id(), self.dep.index()));
                 return true;
             }
         }
@@ -991,11 +995,13 @@ impl DepWorld {
             Outcome::Ok => {
                 self.done[t].store(true, Relaxed);
                 *handoff = self.dep.remove(t, true);
+                crate::oplog(format!("{:?} remove({t}, true) -> {:?}; cursor {}", thread::current().id(), *handoff, self.dep.index()));
                 tx.status = Ws::Executed;
             }
             Outcome::Blocked(d) => {
                 tx.blocker = Some(d);
                 self.dep.add(t, Some(d));
+                crate::oplog(format!("{:?} add({t}, Some({d})) done; cursor {}", thread::current().id(), self.dep.index()));
                 tx.blocked_at = self.clock.fetch_add(1, SeqCst);
                 tx.status = Ws::Conflict;
             }
@@ -1024,6 +1030,7 @@ impl DepWorld {
         crate::oplog(format!("{:?} commits tx {}", thread::current().id(), *next));
         self.committed.publish(*next + 1);
         self.dep.commit(*next);
+        crate::oplog(format!("{:?} commit({}) done; cursor {}", thread::current().id(), *next, self.dep.index()));
         *next += 1;
         true
     }
@@ -1121,8 +1128,10 @@ fn dependency_models(v: &mut Vec<Model>) {
                             idle_rounds += 1;
                             let pending: Vec<usize> =
                                 (0..n).filter(|&i| w.txs[i].lock().unwrap().status != Ws::Executed).collect();
+                            // `next()` moves the cursor by one index per call, so a released
+                            // transaction behind a rewound cursor is reached after at most n calls
                             assert!(
-                                idle_rounds < 2,
+                                idle_rounds < n + 2,
                                 "transactions {pending:?} are neither executed nor re-offered (committed prefix {next_commit})"
                             );
                         }
